@@ -2,6 +2,7 @@ package main
 
 import (
 	"fmt"
+	"go/constant"
 	"go/types"
 	"strings"
 
@@ -83,6 +84,10 @@ func (s *Sess) call(in ssa.CallInstruction, st *State) []Val {
 		addArg(a)
 	}
 	pre := st.clone()
+	s.checkAssertsAt(in, name, st)
+	if r, ok := s.fmtIntrinsic(in, name, args, st); ok {
+		return r
+	}
 
 	// results
 	var results []Val
@@ -132,7 +137,6 @@ func (s *Sess) call(in ssa.CallInstruction, st *State) []Val {
 		} else {
 			mod := s.eng.callMods(s, ct, callee, com, args)
 			s.havocMods(st, mod, pre.top)
-			s.bumpTop(st)
 			mkResults(false, name)
 		}
 		for _, r := range results {
@@ -154,7 +158,6 @@ func (s *Sess) call(in ssa.CallInstruction, st *State) []Val {
 		mod := s.eng.callMods(s, nil, callee, com, args)
 		s.havocCalls[name] = true
 		s.havocMods(st, mod, pre.top)
-		s.bumpTop(st)
 		mkResults(false, name)
 		for _, r := range results {
 			s.assumeAt(st, s.wf(r.t, r.typ, st.top))
@@ -423,4 +426,209 @@ func (s *Sess) copyCall(in ssa.CallInstruction, st *State) Val {
 		arr, dst.t, dst.t, n, srcAt(fmt.Sprintf("(- i (s.off %s))", dst.t)), oldArr, arr))
 	s.setRegion(st, key, srt, fmt.Sprintf("(store %s (s.base %s) %s)", H, dst.t, arr))
 	return Val{t: n, typ: tInt}
+}
+
+// checkAssertsAt evaluates the program-point assertions attached to this call.
+func (s *Sess) checkAssertsAt(in ssa.CallInstruction, name string, st *State) {
+	if s.ct == nil || len(s.ct.Asserts) == 0 {
+		return
+	}
+	short := shortName(name)
+	// method names like "(*pkg.T).m" -> also accept the bare method/function name
+	bare := short
+	if i := strings.LastIndex(bare, "."); i >= 0 {
+		bare = bare[i+1:]
+	}
+	ord := s.callOrdByBare(in, bare)
+	for _, a := range s.ct.Asserts {
+		if (a.Callee != bare && a.Callee != short) || a.Ord != ord || a.C.E == nil {
+			continue
+		}
+		c := s.funcEnv(st, s.entry, nil)
+		instr := in.(ssa.Instruction)
+		c.lookup = func(n string) (Val, bool) { return s.resolveLocalAt(instr, n, st) }
+		f, err := c.evalBool(a.C.E)
+		if err != nil {
+			s.unsupp("assert at %s#%d %q: %v", a.Callee, a.Ord, a.C.Src, err)
+			continue
+		}
+		s.oblige(st, "assert", "assert."+labelOr(a.C.Label, a.Ord), f, in.Pos(), a.C.Src)
+		a.seen = true
+	}
+}
+
+func (s *Sess) callOrdByBare(in ssa.CallInstruction, bare string) int {
+	n := 0
+	for _, b := range s.fn.Blocks {
+		for _, i := range b.Instrs {
+			ci, ok := i.(ssa.CallInstruction)
+			if !ok {
+				continue
+			}
+			if ci == in {
+				return n
+			}
+			nm := shortName(s.eng.calleeName(ci.Common()))
+			if j := strings.LastIndex(nm, "."); j >= 0 {
+				nm = nm[j+1:]
+			}
+			if nm == bare {
+				n++
+			}
+		}
+	}
+	return n
+}
+
+// resolveLocalAt maps a source-level local name to its value just before instruction at.
+func (s *Sess) resolveLocalAt(at ssa.Instruction, name string, st *State) (Val, bool) {
+	for _, b := range s.fn.Blocks {
+		for _, in := range b.Instrs {
+			if a, ok := in.(*ssa.Alloc); ok && a.Comment == name {
+				if av, ok := s.env[a]; ok {
+					T := derefType(a.Type())
+					return Val{t: s.load(st, av, T), typ: T}, true
+				}
+			}
+		}
+	}
+	var best *ssa.DebugRef
+	for _, d := range s.debugRefs[name] {
+		if d.IsAddr {
+			continue
+		}
+		ok := false
+		if d.Block() == at.Block() {
+			for _, in := range at.Block().Instrs {
+				if in == ssa.Instruction(d) {
+					ok = true
+					break
+				}
+				if in == at {
+					break
+				}
+			}
+		} else if d.Block().Dominates(at.Block()) {
+			ok = true
+		}
+		if !ok {
+			continue
+		}
+		if best == nil || best.Block().Dominates(d.Block()) {
+			best = d
+		}
+	}
+	if best != nil {
+		v := s.val(best.X)
+		if v.place == nil {
+			return v, true
+		}
+	}
+	return Val{}, false
+}
+
+// fmtIntrinsic gives fmt.Sprintf / fmt.Errorf with a constant format made only of %s %d %v %q
+// and literal text their exact meaning for string and integer arguments (library semantics,
+// listed as an assumption). Anything else falls through to the generic pure treatment.
+func (s *Sess) fmtIntrinsic(in ssa.CallInstruction, name string, args []Val, st *State) ([]Val, bool) {
+	if name != "fmt.Sprintf" && name != "fmt.Errorf" {
+		return nil, false
+	}
+	com := in.Common()
+	fc, ok := com.Args[0].(*ssa.Const)
+	if !ok || fc.Value == nil {
+		return nil, false
+	}
+	format := constantStr(fc)
+	var parts []string
+	argi := 0
+	sl := args[1]
+	H := s.region(st, elemRegion(types.NewInterfaceType(nil, nil)), s.elemSort(types.NewInterfaceType(nil, nil)))
+	lit := ""
+	flush := func() {
+		if lit != "" {
+			parts = append(parts, smtStr(lit))
+			lit = ""
+		}
+	}
+	exact := true
+	for i := 0; i < len(format); i++ {
+		ch := format[i]
+		if ch != '%' {
+			lit += string(ch)
+			continue
+		}
+		if i+1 >= len(format) {
+			return nil, false
+		}
+		v := format[i+1]
+		i++
+		if v == '%' {
+			lit += "%"
+			continue
+		}
+		if v != 's' && v != 'd' && v != 'v' && v != 'q' && v != 'w' {
+			return nil, false
+		}
+		flush()
+		el := s.define("fa", "Iface", fmt.Sprintf("(select (select %s (s.base %s)) (go.ix (s.off %s) %d))", H, sl.t, sl.t, argi))
+		argi++
+		strTag := s.tc.tagOf(types.Typ[types.String])
+		_, unS := s.boxFns(types.Typ[types.String])
+		opaque := fmt.Sprintf("(%s %s)", s.uf("fmt.verb."+string(v), []string{"Iface"}, "String"), el)
+		switch v {
+		case 's', 'v':
+			t := fmt.Sprintf("(ite (= (i.tag %s) %d) (%s (i.val %s))", el, strTag, unS, el)
+			closes := ")"
+			for _, it := range []types.Type{types.Typ[types.Int], types.Typ[types.Int32], types.Typ[types.Int64]} {
+				if v == 's' {
+					break
+				}
+				_, unI := s.boxFns(it)
+				x := fmt.Sprintf("(%s (i.val %s))", unI, el)
+				t += fmt.Sprintf(" (ite (= (i.tag %s) %d) (ite (>= %s 0) (str.from_int %s) (str.++ \"-\" (str.from_int (- %s))))", el, s.tc.tagOf(it), x, x, x)
+				closes += ")"
+			}
+			parts = append(parts, t+" "+opaque+closes)
+		case 'd':
+			t := ""
+			closes := ""
+			for _, it := range []types.Type{types.Typ[types.Int], types.Typ[types.Int32], types.Typ[types.Int64]} {
+				_, unI := s.boxFns(it)
+				x := fmt.Sprintf("(%s (i.val %s))", unI, el)
+				t += fmt.Sprintf("(ite (= (i.tag %s) %d) (ite (>= %s 0) (str.from_int %s) (str.++ \"-\" (str.from_int (- %s)))) ", el, s.tc.tagOf(it), x, x, x)
+				closes += ")"
+			}
+			parts = append(parts, t+opaque+closes)
+		default:
+			exact = false
+			parts = append(parts, opaque)
+		}
+	}
+	flush()
+	_ = exact
+	var str string
+	switch len(parts) {
+	case 0:
+		str = `""`
+	case 1:
+		str = parts[0]
+	default:
+		str = "(str.++ " + strings.Join(parts, " ") + ")"
+	}
+	s.trustedUsed["fmt."+strings.TrimPrefix(name, "fmt.")+" (intrinsic: %s %d %v on strings and ints)"] = true
+	if name == "fmt.Sprintf" {
+		return []Val{{t: s.define("spf", "String", str), typ: tString}}, true
+	}
+	f := s.uf("fmt.Errorf.of", []string{"String"}, "Iface")
+	e := s.define("err", "Iface", fmt.Sprintf("(%s %s)", f, str))
+	s.assume(fmt.Sprintf("(> (i.tag %s) 0)", e))
+	return []Val{{t: e, typ: com.Signature().Results().At(0).Type()}}, true
+}
+
+func constantStr(c *ssa.Const) string {
+	if c.Value == nil {
+		return ""
+	}
+	return constant.StringVal(c.Value)
 }
